@@ -1,8 +1,10 @@
 import PewDriver.Util
 import PewModel.Extent
+import PewDriver.C09
 open Lean
 namespace PewDriver.C10
 open PewDriver Pew Pew.Extent Pew.Srr
+open PewDriver.C09 (parseSrrCfg)
 
 def parseCfg (j : Json) : R Cfg := do
   let k ← getStr j "kind"
@@ -10,14 +12,6 @@ def parseCfg (j : Json) : R Cfg := do
   | "raster" => pure (.raster (← getRat j "spotsize") (← getRat j "speed") (← getRat j "scantime"))
   | "spot" => pure (.spot (← getRat j "sx") (← getRat j "sy"))
   | _ => throw s!"bad config kind {k}"
-
-def parseSrrCfg (j : Json) : R SrrConfig := do
-  let pairs ← getList (fun p => do
-      match (← asList asNat p) with
-      | [o, d] => pure (o, d)
-      | _ => throw "offset pair expected") j "pairs"
-  pure (SrrConfig.make (← getRat j "spotsize") (← getRat j "speed") (← getRat j "scantime")
-    (← getRat j "warmup") pairs)
 
 def jExt (e : Ext) : Json := jList jRat [e.x0, e.x1, e.y0, e.y1]
 
